@@ -6,7 +6,7 @@ import common
 import corr
 import fstree
 
-RULE = ("one tree of 521 sparse files of about 16 TiB each (total above 2^53, odd: SUM must be exact); trees with 0, 1, 2 and many matching entries, non-integer means, large (sparse) sizes x random non-empty "
+RULE = ("trees with zip archives searched with `archives` (COUNT/SUM/MAX against the rows of the plain query, select lists with and without column references); one tree of 521 sparse files of about 16 TiB each (total above 2^53, odd: SUM must be exact); trees with 0, 1, 2 and many matching entries, non-integer means, large (sparse) sizes x random non-empty "
         "subsets of the nine aggregates over size, hardlinks, uid, line_count, length(name) x optional WHERE; "
         "(a) CLI output vs the Lean model (floats compared with relative tolerance 1e-9), (b) oracle: Python "
         "Fraction/math over the rows of the same query without aggregates. distinct = (tree, argv); nontrivial = "
@@ -83,6 +83,35 @@ def part_huge_total(ctx, scratch):
     common.rm_tree(root)
 
 
+def part_archives(ctx, scratch, quick):
+    """aggregates count what the same query without aggregates returns — also the members of zip archives under
+    `archives`, and whatever the select list looks like (a list without column references carries an implicit limit)"""
+    for t in range(4 if quick else 40):
+        r = ctx.rng.fork()
+        ents = fstree.gen_tree(r, max_entries=r.choice([3, 8]), kinds="fd", sizes=[1, 2, 5, 10, 100])
+        for i in range(r.range(1, 2)):
+            ents.append({"path": "pack%d.zip" % i, "kind": "z", "members": fstree.gen_zip_members(r, r.choice([3, 5, 8])), "mtime": 1700000000})
+        snap = corr.Snap(scratch, ents, subdir="arc%d" % t)
+        for where in ("", " where size > 0", " where name like '%.txt' or size >= 5"):
+            for sel, pick in (("count(*)", lambda xs: len(xs)), ("count(*), sum(size)", None), ("max(size), count(name)", None)):
+                trav = r.choice(["", " dfs"])
+                q = "select %s from . archives%s%s into list" % (sel, trav, where)
+                qrows = "select size from . archives%s%s into list" % (trav, where)
+                ctx.case(("arc", t, q))
+                ctx.distinct.add(("arc", t, q, "nt"))
+                a = common.run_cli([q], cwd=snap.root, scratch=scratch)
+                rr = common.run_cli([qrows], cwd=snap.root, scratch=scratch)
+                xs = [int(v) for v in rr["out"].split(b"\0")[:-1] if v]
+                got = [v.decode() for v in a["out"].split(b"\0")[:-1]]
+                want = {"count(*)": [str(len(xs))], "count(*), sum(size)": [str(len(xs)), str(sum(xs))],
+                        "max(size), count(name)": [str(max(xs) if xs else 0), str(len(xs))]}[sel]
+                if a["status"] != 0 or got != want:
+                    ctx.oracle_fail("aggregates over a search with `archives` do not count what the plain query returns",
+                                    {"argv": [q], "rows_argv": [qrows], "tree": [n["rel"] for n in snap.nodes][:30]},
+                                    detail={"got": got, "want": want, "status": a["status"]})
+        common.rm_tree(snap.root)
+
+
 def run(ctx):
     quick = ctx.tier == "quick"
     ntrees = 20 if quick else 200
@@ -90,6 +119,7 @@ def run(ctx):
     scratch = common.new_scratch()
     try:
         part_huge_total(ctx, scratch)
+        part_archives(ctx, scratch, quick)
         for t in range(ntrees):
             r = ctx.rng.fork()
             sizes = r.choice([[0, 1, 2, 3, 5, 7, 10, 100, 1023, 1025], [1, 2], [10, 11, 13, 4096],
